@@ -42,6 +42,20 @@ def parse(data, allow_custom=False, interoperability=False, version=None):
     return obj
 
 
+def _check_no_custom_properties_arg(stix_dict, allow_custom):
+    """
+    "custom_properties" is a keyword argument of the object constructors which
+    implies allow_custom=True.  Parsed content is passed to the constructors
+    as keyword arguments, so a property of that name in a document would
+    silently switch off strict validation.
+    """
+    if not allow_custom and "custom_properties" in stix_dict:
+        raise ParseError(
+            "Can't parse object with a 'custom_properties' property unless "
+            "allow_custom=True.",
+        )
+
+
 def dict_to_stix2(stix_dict, allow_custom=False, interoperability=False, version=None):
     """convert dictionary to full python-stix2 object
 
@@ -100,6 +114,8 @@ def dict_to_stix2(stix_dict, allow_custom=False, interoperability=False, version
                 return stix_dict
         raise ParseError("Can't parse unknown object type '%s'! For custom types, use the CustomObject decorator." % obj_type)
 
+    _check_no_custom_properties_arg(stix_dict, allow_custom)
+
     return obj_class(allow_custom=allow_custom, interoperability=interoperability, **stix_dict)
 
 
@@ -150,5 +166,7 @@ def parse_observable(data, _valid_refs=None, allow_custom=False, interoperabilit
             "Can't parse unknown observable type '%s'! For custom observables, "
             "use the CustomObservable decorator." % obj['type'],
         )
+
+    _check_no_custom_properties_arg(obj, allow_custom)
 
     return obj_class(allow_custom=allow_custom, interoperability=interoperability, **obj)
